@@ -64,6 +64,11 @@ impl<R: Read + Seek> ReadBox<&mut R> for MoofBox {
                 ));
             }
 
+            // Break if size zero BoxHeader, which can result in dead-loop.
+            if s == 0 {
+                break;
+            }
+
             match name {
                 BoxType::MfhdBox => {
                     mfhd = Some(MfhdBox::read_box(reader, s)?);
